@@ -291,8 +291,9 @@ def tyenv_term(symbol_table, self_type, intermediate, pn, Identifier):
             continue
         seen.add((k, n))
         rows.append(f"({k}, {ctext(n)}, {ctext(p)})")
-    return (f"(fun st : ty => mkTyenv [({ctext('self')}, st)] [] {clist(consts)} {clist(fns)} {clist(enums)} "
-            f"{clist(classes)} {clist(rows)})")
+    return (f"(fun (ls : list (text * ty)) (lv : list text) (ar : list (text * text)) (chk : bool) => "
+            f"mkTyenv ls lv {clist(consts)} {clist(fns)} {clist(enums)} {clist(classes)} "
+            f"({clist(rows)} ++ map (fun x => (NVar, x, x)) lv) ar chk)")
 
 
 def run_transpile(models):
@@ -332,7 +333,8 @@ def run_transpile(models):
                         cases.append(rec)
                         continue
                     rec["tree"] = tree_expr(inv.body)
-                    rec["self_ty"] = self_type
+                    rec["ctx"] = (f"([({ctext('self')}, {self_type})], [], "
+                                  f"[({ctext('self')}, {ctext('that')})], true)")
                     tr = gv._InvariantTranspiler(type_map=type_map, environment=env, symbol_table=ir)
                     try:
                         code, err = tr.transform(inv.body)
@@ -357,6 +359,67 @@ def run_transpile(models):
                 except Unsupported as e:
                     rec["skip"] = f"unsupported: {e}"
                 cases.append(rec)
+        # bodies of the transpilable verification functions (statement by statement)
+        for fn in ir.verification_functions:
+            if not isinstance(fn, intermediate.TranspilableVerification):
+                continue
+            try:
+                inference, err = ti.infer_for_verification(verification=fn, base_environment=base_env)
+                if err is not None:
+                    cases.append({"owner": fn.name, "description": "<body>", "skip": "type inference failed",
+                                  "cls": None})
+                    continue
+                tr = gv._TranspilableVerificationTranspiler(
+                    type_map=inference.type_map, environment=inference.environment_with_args,
+                    symbol_table=ir, verification=fn)
+                args = clist(f"({ctext(a.name)}, {ctext(pn.argument_name(Identifier(a.name)))})"
+                             for a in fn.arguments)
+                arg_tys = [f"({ctext(a.name)}, {cty(a.type_annotation, intermediate)})" for a in fn.arguments]
+                from aas_core_codegen.parse import tree as ptree
+                for k, stmt in enumerate(fn.parsed.body):
+                    value = getattr(stmt, "value", None)
+                    if isinstance(stmt, (ptree.Return, ptree.Assignment)) and value is not None:
+                        locals_now = sorted(tr._variable_name_set)
+                        for v in locals_now:
+                            assert pn.variable_name(Identifier(v)) == v or True
+                        rec = {"owner": fn.name, "description": f"<statement {k}>", "cls": None, "text": None}
+                        try:
+                            rec["tree"] = tree_expr(value)
+                            rec["ctx"] = (f"({clist(arg_tys + [f'({ctext(v)}, TyOther)' for v in locals_now])}, "
+                                          f"{clist(ctext(v) for v in locals_now)}, {args}, false)")
+                            rec["local_names"] = [[v, pn.variable_name(Identifier(v))] for v in locals_now]
+                            try:
+                                code, err = tr.transform(value)
+                            except BaseException as e:  # noqa
+                                if isinstance(e, KeyboardInterrupt):
+                                    raise
+                                rec["cls"], rec["exc"] = 2, type(e).__name__
+                                cases.append(rec)
+                                continue
+                            if err is not None:
+                                rec["cls"] = 1
+                            else:
+                                rec["cls"], rec["text"] = 0, str(code)
+                                try:
+                                    parsed = ast.parse("(" + str(code) + "\n)", mode="eval").body
+                                    rec["pyast"] = pyast(parsed)
+                                    rec["toks"] = toks_of(str(code))
+                                except SyntaxError as e:
+                                    rec["syntax_error"] = str(e)
+                        except Unsupported as e:
+                            rec["skip"] = f"unsupported: {e}"
+                        if any(v != p for v, p in rec.get("local_names", [])):
+                            rec["skip"] = "local variable renamed by variable_name"
+                        cases.append(rec)
+                    # the statement itself updates the set of local variables
+                    try:
+                        tr.transform(stmt)
+                    except BaseException as e:  # noqa
+                        if isinstance(e, KeyboardInterrupt):
+                            raise
+                        break
+            except Unsupported:
+                continue
         out.append({"status": "ok", "cases": cases,
                     "tyenv_fn": tyenv_term(ir, None, intermediate, pn, Identifier)})
     return out
